@@ -301,6 +301,10 @@ E4_FAMILIES = [
     ("loop", "loop with every choice of (pre-header, body, exit) instruction (2744)"),
     ("call", "call between every pair of instructions (196)"),
     ("arith", "every 3-instruction body over a 14-instruction arithmetic alphabet: constants, lui, mul/mulhu/div/rem, division by zero, shifts by large amounts, x0-sourced compares, la/lw (2744; thorough: 4 instructions, 38416)"),
+    ("ecall", "environment calls with a known service number between every (before, after) pair of argument/result uses, and an Exit2 arm (180)"),
+    ("csr", "every 3-instruction body over an 8-instruction CSR alphabet (512)"),
+    ("csr2", "every 3-instruction body over 9 read/write/set/clear instructions on one CSR (729)"),
+    ("handler", "interrupt handlers (registered through utvec): every 3-instruction body over 9 spill/reload/CSR instructions between the two uscratch swaps (683)"),
     ("mix", "every (stack, arithmetic, stack) instruction triple from the two alphabets (2744)"),
     ("fp", "a function keeping a frame pointer, with every pair of instructions from the stack alphabet plus sp moves in between (324)"),
     ("func", "every function body of 1-3 instructions over a 10-instruction save/restore alphabet, between the frame push and pop (1110; thorough: 1-4, 11110)"),
